@@ -16,6 +16,7 @@ import env
 import pipeline
 import resp
 import c03_docs as D
+import c03_mint
 from c03_docs import E
 from pipeline import A, R
 from core import Exn, call, cstr, cbool, copt, clist
@@ -39,6 +40,31 @@ RULE = ("(1) IdP-1 key-descriptor layouts (17, six of them with key descriptors 
 
 KEYS = ["idp", "idp2", "other", "sp2", "sp", "md"]
 KID = {k: i + 1 for i, k in enumerate(KEYS)}
+# certificates: "<key>" (valid 2020-2060), "<key>-exp" (expired 2021), "<key>-fut" (valid from 2055) - the SAME RSA key in
+# another certificate (harness/c03_mint.py).  KID erases the window (Model.CertSelect: cert n holds key n);
+# Model.CertValidity keeps it as an attribute that nothing reads (ccert).
+VARIANTS = {"exp": "Expired", "fut": "NotYetValid"}
+CERTS = list(KEYS) + ["%s-%s" % (k, t) for k in c03_mint.NAMES for t in sorted(VARIANTS)]
+for _c in CERTS:
+    KID[_c] = KID[_c.split("-")[0]]
+
+
+def ckey(c):
+    """the key a certificate holds"""
+    return c.split("-")[0]
+
+
+def cwindow(c):
+    return VARIANTS[c.split("-")[1]] if "-" in c else "Valid"
+
+
+def ccert(c):
+    return "{| c_key := %d; c_valid := %s |}" % (KID[c], cwindow(c))
+
+
+def cert_code(c):
+    """show_cert of Model.CertValidity"""
+    return KID[c] * 10 + ["Valid", "Expired", "NotYetValid"].index(cwindow(c))
 LAYOUTS = {
     "signing": [("signing", ["idp"])],
     "encryption-only": [("encryption", ["idp"])],
@@ -60,7 +86,27 @@ LAYOUTS = {
     "keyname-only": [("signing", [])],
     "enc-keyname+sign": [("encryption", []), ("signing", ["idp"])],
     "sign+enc-keyname+useless-keyname": [("signing", ["idp", "other"]), ("encryption", []), (None, [])],
+    # certificate VALIDITY DATES: a signing certificate in metadata that has expired / is not yet valid is still the
+    # issuer's declared signing key: signatures under its key are accepted, and its presence alone forbids the
+    # embedded-certificate fallback (every embedded certificate in these cases is a currently valid one)
+    "expired": [("signing", ["idp-exp"])],
+    "not-yet-valid": [("signing", ["idp-fut"])],
+    "expired+future": [("signing", ["idp-exp", "idp-fut"])],
+    "expired+renewed": [("signing", ["idp-exp"]), ("signing", ["idp"])],
+    "expired-other+valid": [("signing", ["other-exp"]), ("signing", ["idp"])],
+    "valid+future-other": [("signing", ["idp", "other-fut"])],
+    "useless-expired+enc": [(None, ["idp-exp"]), ("encryption", ["other"])],
+    "expired-other-only": [("signing", ["other-exp"])],
+    "enc-valid+sign-future-other": [("encryption", ["idp"]), ("signing", ["other-fut"])],
+    "enc-expired-only": [("encryption", ["idp-exp"])],
 }
+VALIDITY_LAYOUTS = [l for l, kds in LAYOUTS.items() if any("-" in c for _, certs in kds for c in certs)]
+IDP2_EXPIRED = [("signing", ["idp2-exp"]), ("encryption", ["sp2"])]
+
+
+def idp2_layout(lname):
+    """the second IdP of the standard federation: in the validity layouts its only signing certificate has expired too"""
+    return IDP2_EXPIRED if lname in VALIDITY_LAYOUTS else IDP2_LAYOUT
 KEYNAME_LAYOUTS = [l for l, kds in LAYOUTS.items() if any(not certs for _, certs in kds)]
 IDP2_LAYOUT = [("signing", ["idp2"]), ("encryption", ["sp2"])]
 UNKNOWN_ID = "https://unknown.example.org/idp"
@@ -106,12 +152,24 @@ def sp_for(lname, only_md):
         over = {"sp": {"want_response_signed": True}}
         if only_md is not None:
             over["only_use_keys_in_metadata"] = only_md
-        _sps[k] = env.make_sp(idp_md=[idp_md(IDP_ID, LAYOUTS[lname]), idp_md(IDP2_ID, IDP2_LAYOUT)], **over)
+        _sps[k] = env.make_sp(idp_md=[idp_md(IDP_ID, LAYOUTS[lname]), idp_md(IDP2_ID, idp2_layout(lname))], **over)
     return _sps[k]
 
 
 def md_coq(lname):
-    return fed_coq([(IDP_ID, LAYOUTS[lname]), (IDP2_ID, IDP2_LAYOUT)])
+    return fed_coq(std_fed(lname))
+
+
+def fed_vcoq(fed):
+    """the federation for Model.CertValidity (certificates with their validity window)"""
+    def ent(layout):
+        return "[" + clist(layout, lambda kd: "{| vkd_use := %s; vkd_certs := %s |}" % (
+            copt(kd[0], cstr), clist(kd[1], ccert))) + "]"
+    return clist(fed, lambda el: "(%s, %s)" % (cstr(el[0]), ent(el[1])))
+
+
+def md_vcoq(lname):
+    return fed_vcoq(std_fed(lname))
 
 
 def fed_coq(fed):
@@ -138,7 +196,7 @@ def CL(name, fed, only_md=True, wrs=False, was=False):
 
 
 def std_fed(lname):
-    return [(IDP_ID, LAYOUTS[lname]), (IDP2_ID, IDP2_LAYOUT)]
+    return [(IDP_ID, LAYOUTS[lname]), (IDP2_ID, idp2_layout(lname))]
 
 
 _clients = {}
@@ -210,7 +268,7 @@ def effective_issuer(own, arg):
 def signing_certs(fed, name):
     for eid, layout in fed:
         if eid == name:
-            return [c for use, certs in layout if use in ("signing", None) for c in certs]
+            return [ckey(c) for use, certs in layout if use in ("signing", None) for c in certs]
     return None
 
 
@@ -326,6 +384,8 @@ def run(ctx):
     env.tool_inprocess(True)
     _trail.clear()
     _analysed[0] = 0
+    for complaint in c03_mint.check_windows(NOW):      # the expired / not-yet-valid certificates really are, at both clocks
+        ctx.oracle_fail("harness-certificate-window", complaint, None)
     with env.Clock(NOW):
         import time
         for u in (unit_response_level, unit_certs, unit_documents, unit_direct, unit_messages, unit_history):
@@ -341,9 +401,9 @@ def unit_response_level(ctx):
     docs = {}
     for lname, (iname, issuer), key, embed, only_md in itertools.product(
             LAYOUTS, ISSUERS.items(), ["idp", "idp2", "other", "sp2", "sp"], [True, False], [True, False, None]):
-        if ctx.quick and only_md is None and (key not in ("idp", "other") or lname not in ("signing", "none", "enc-only-other")):
+        if ctx.quick and only_md is None and (key not in ("idp", "other") or lname not in ("signing", "none", "enc-only-other", "expired", "expired-other-only")):
             continue
-        if ctx.quick and iname in ("prefix", "upper") and (key not in ("idp", "other") or lname not in ("signing", "none", "two-certs", "useless")):
+        if ctx.quick and iname in ("prefix", "upper") and (key not in ("idp", "other") or lname not in ("signing", "none", "two-certs", "useless", "not-yet-valid")):
             continue
         dk = (issuer, key, embed)
         if dk not in docs:
@@ -359,16 +419,16 @@ def unit_response_level(ctx):
         if accepted and not isinstance(e2e, list) and iname != "absent":
             ctx.oracle_fail("e2e-refuses-verified:%s:%s" % (iname, lname), "signature check passes but the SP refuses the response (%s)" % (e2e,), dict(layout=lname, issuer=iname))
         only = True if only_md is None else only_md
-        coq = "(true, %s, %s, %s, %s, %d)" % (md_coq(lname), copt(issuer, cstr), cbool(only),
-                                              clist([key] if embed else [], lambda c: "%d" % KID[c]), KID[key])
+        coq = "(true, %s, %s, %s, %s, %d)" % (md_vcoq(lname), copt(issuer, cstr), cbool(only),
+                                              clist([key] if embed else [], ccert), KID[key])
         cell = dict(layout=lname, issuer=iname, key=key, embedded=embed, only_md=only_md)
         cases.append(dict(id=n, coq=coq, impl=impl, show=cell))
         n += 1
         ctx.nontriv(tuple(cell.items()))
         ctx.count("accepted" if accepted else "rejected:" + got.name)
         # oracle: the property, from the layout alone
-        layout = LAYOUTS[lname] if iname == "idp1" else IDP2_LAYOUT if iname == "idp2" else None
-        signing = [] if layout is None else [c for use, certs in layout if use in ("signing", None) for c in certs]
+        layout = LAYOUTS[lname] if iname == "idp1" else idp2_layout(lname) if iname == "idp2" else None
+        signing = [] if layout is None else [ckey(c) for use, certs in layout if use in ("signing", None) for c in certs]
         if only:
             want = key in signing
         else:
@@ -382,10 +442,10 @@ def unit_response_level(ctx):
             ctx.oracle_fail("issuer-key-refused:%s:%s" % (iname, lname), "valid signature by the issuer's own signing key %r refused (%s)" % (key, got), cell)
         if n % 300 == 0:
             ctx.sample(dict(cell=cell, outcome=got if not accepted else "accepted", end_to_end=e2e))
-    ctx.correspond("check_signature_cert_selection", "Model.Sigver Model.CertSelect",
-                   "fun c : bool * mdstore * option str * bool * list N * N => match c with (mp, m, i, o, e, s) => "
-                   "match check_signature mp m i o e s with Ok _ => VB true | Err _ => VE (s2l \"rejected\") end end",
-                   "(bool * mdstore * option str * bool * list N * N)", cases, shard=300)
+    ctx.correspond("check_signature_cert_selection", "Model.Sigver Model.CertSelect Model.CertValidity",
+                   "fun c : bool * vmdstore * option str * bool * list cert * N => match c with (mp, m, i, o, e, s) => "
+                   "show_vcheck (vcheck_signature mp m i o e s) end",
+                   "(bool * vmdstore * option str * bool * list cert * N)", cases, shard=300)
 
 
 def unit_certs(ctx):
@@ -396,16 +456,16 @@ def unit_certs(ctx):
         for ent, use in itertools.product([IDP_ID, IDP2_ID, UNKNOWN_ID, IDP_ID[:-1], IDP_ID.upper(), IDP_ID + "/"], ["signing", "encryption"]):
             try:
                 got = sp.metadata.certs(ent, "any", use)
-                b64 = {env.cert_b64(k).replace("\n", ""): KID[k] for k in KEYS}
+                b64 = {env.cert_b64(k).replace("\n", ""): cert_code(k) for k in CERTS}
                 impl = [b64["".join(c.split())] for c in got]
             except KeyError:
                 impl = None
-            cases.append(dict(id=len(cases), coq="(%s, Some %s, %s)" % (md_coq(lname), cstr(ent), cstr(use)), impl=impl,
+            cases.append(dict(id=len(cases), coq="(%s, Some %s, %s)" % (md_vcoq(lname), cstr(ent), cstr(use)), impl=impl,
                               show=dict(layout=lname, entity=ent, use=use)))
             ctx.nontriv(("certs", lname, ent, use))
-    ctx.correspond("metadata_certs", "Model.Sigver Model.CertSelect",
-                   "fun c : mdstore * option str * str => match c with (m, i, u) => show_option (fun l => VL (map (fun n => VZ (Z.of_N n)) l)) (md_certs m i u) end",
-                   "(mdstore * option str * str)", cases)
+    ctx.correspond("metadata_certs", "Model.Sigver Model.CertSelect Model.CertValidity",
+                   "fun c : vmdstore * option str * str => match c with (m, i, u) => show_option (fun l => VL (map show_cert l)) (vmd_certs m i u) end",
+                   "(vmdstore * option str * str)", cases)
 
 
 # ---------------------------------------------------------------------------------------------
@@ -439,7 +499,8 @@ def place_doc(place, outer, okey, inner):
 
 def doc_clients(ctx):
     cls = []
-    for lname, only_md in ([("enc+sign", True), ("none", True), ("none", False), ("sign+keyname", True), ("keyname+sign", False)] if ctx.quick else
+    for lname, only_md in ([("enc+sign", True), ("none", True), ("none", False), ("sign+keyname", True), ("keyname+sign", False),
+                            ("expired+future", False), ("expired-other-only", True)] if ctx.quick else
                            [(l, o) for l in LAYOUTS for o in (True, False)] + [("signing", None)]):
         cls.append(CL("doc:%s:%s" % (lname, only_md), std_fed(lname), only_md=only_md))
     cls.append(CL("doc:signing:was", std_fed("signing"), was=True))
@@ -496,9 +557,11 @@ def direct_clients(ctx):
     cls = [CL("direct:signing:on", std_fed("signing")),
            CL("direct:none:off", std_fed("none"), only_md=False), CL("direct:nometadata:off", [], only_md=False),
            CL("direct:none:on", std_fed("none")),
-           CL("direct:keyname+sign:off", std_fed("keyname+sign"), only_md=False), CL("direct:sign+keyname:on", std_fed("sign+keyname"))]
+           CL("direct:keyname+sign:off", std_fed("keyname+sign"), only_md=False), CL("direct:sign+keyname:on", std_fed("sign+keyname")),
+           CL("direct:expired:off", std_fed("expired"), only_md=False), CL("direct:expired-other-only:on", std_fed("expired-other-only"))]
     if not ctx.quick:
-        cls += [CL("direct:%s:%s" % (l, o), std_fed(l), only_md=o) for l in ("two-descriptors", "enc+sign", "useless", "encryption-only") for o in (True, False)]
+        cls += [CL("direct:%s:%s" % (l, o), std_fed(l), only_md=o) for l in ["two-descriptors", "enc+sign", "useless", "encryption-only"] + VALIDITY_LAYOUTS for o in (True, False)
+                if "direct:%s:%s" % (l, "on" if o else "off") not in [c["name"] for c in cls]]
         cls.append(CL("direct:signing:off", std_fed("signing"), only_md=False))
         cls.append(CL("direct:nometadata:on", []))
     return cls
@@ -592,7 +655,9 @@ def unit_messages(ctx):
     cases = []
     cls = [CL("msg:signing:on", std_fed("signing")), CL("msg:enc+sign:on", std_fed("enc+sign")), CL("msg:signing:off", std_fed("signing"), only_md=False),
            CL("msg:none:off", std_fed("none"), only_md=False), CL("msg:sign+keyname:off", std_fed("sign+keyname"), only_md=False),
-           CL("msg:useless-keyname+sign+enc:on", std_fed("useless-keyname+sign+enc"))]
+           CL("msg:useless-keyname+sign+enc:on", std_fed("useless-keyname+sign+enc")),
+           CL("msg:not-yet-valid:off", std_fed("not-yet-valid"), only_md=False), CL("msg:expired-other+valid:on", std_fed("expired-other+valid")),
+           CL("msg:expired-other-only:off", std_fed("expired-other-only"), only_md=False)]
     for kind, iname, key, embed in itertools.product(sorted(D.MESSAGES), ["idp1", "idp2", "unknown", "absent", "idp1-ws"], ["idp", "idp2", "other"], [True, None]):
         e = E(SPELL[iname], key, embed=embed)
         for cl in cls:
@@ -629,8 +694,8 @@ def history_clients():
     return [
         CL("h0:std", [(IDP_ID, [("signing", ["idp"])]), (IDP2_ID, [("signing", ["idp2"])])]),
         CL("h1:swapped", [(IDP_ID, [("signing", ["idp2"])]), (IDP2_ID, [("signing", ["idp"])])]),
-        CL("h2:other-off", [(IDP_ID, [("signing", ["other"])]), (IDP2_ID, [])], only_md=False),
-        CL("h3:std-again", [(IDP_ID, [("signing", ["idp"]), ("signing", [])]), (IDP2_ID, [(None, []), ("signing", ["idp2"])])]),
+        CL("h2:other-off", [(IDP_ID, [("signing", ["other-exp"])]), (IDP2_ID, [])], only_md=False),      # expired, setting off
+        CL("h3:std-again", [(IDP_ID, [("signing", ["idp-fut"]), ("signing", [])]), (IDP2_ID, [(None, []), ("signing", ["idp2-exp"])])]),
         CL("h4:only-idp2", [(IDP2_ID, [("signing", ["other"]), ("encryption", ["idp"])])]),
     ]
 
